@@ -82,7 +82,8 @@ class Labels(Machine):
     REQUIRED_PROBES = ("without_labels_ge3_remaining", "with_labels", "get_label", "add_label_new", "add_label_existing",
                        "remove_label_legal", "remove_label_illegal", "chained_selection", "non_ascii_label",
                        "labeller_array", "labeller_pointcloud", "labeller_labelled_graph", "labeller_wrong_size",
-                       "labeller_via_manager", "labeller_3d", "labeller_commutes_checked") + tuple("ran_" + n for n in LABELLERS)
+                       "labeller_via_manager", "labeller_3d", "labeller_commutes_checked",
+                       "caller_reuses_constructor_buffers") + tuple("ran_" + n for n in LABELLERS)
 
     @classmethod
     def swarm(cls, rng, tier):
@@ -182,6 +183,7 @@ class Labels(Machine):
                     mk = np.zeros(n, dtype=bool)
                     mk[list(ix)] = True
                     masks[nm] = mk
+                self._caller_masks = masks      # the caller keeps (and later reuses) these boolean buffers
                 if how == 1:
                     G = LabelledPointUndirectedGraph.init_from_edges(pts.copy(), e_arr, masks)
                 else:
@@ -194,10 +196,24 @@ class Labels(Machine):
             return
         m = Model(pts, edges, labels)
         self._compare(G, m, "constructed")
+        if how != 0 and op["seed"] % 3 == 0:
+            # the caller clears / reuses the mask arrays (and the points array) it passed: a graph built with the
+            # default copy=True owns its data and must not notice
+            for mk in self._caller_masks.values():
+                mk[...] = False
+            self.ctx.probe("caller_reuses_constructor_buffers")
+            self._compare(G, m, "after_caller_reused_its_mask_buffers")
         self._put(G, m, op["dst"])
 
     # --- comparison with the model
     def _compare(self, G, m, what, strict_order=True):
+        try:
+            return self._compare_inner(G, m, what, strict_order)
+        except Exception as ex:     # a query on the graph itself failed
+            self.ctx.fail("selection", what + "_query_raised", "%s: %r" % (what, ex))
+            return False
+
+    def _compare_inner(self, G, m, what, strict_order=True):
         ctx = self.ctx
         ok = isinstance(G, PointUndirectedGraph) and G.points.shape == m.points.shape and np.array_equal(G.points, m.points)
         ctx.require(ok, "selection", what + "_points", lambda: "%s: points %r expected %r" % (what, getattr(G, "points", None), m.points))
